@@ -102,3 +102,30 @@ def copt(x, f):
 
 def pat_of(s):
     return [1 if c in POS else -1 if c in NEG else 0 for c in s]
+
+
+# ------------------------------------------------------------------ parallel evaluation
+
+def pmap(fn, items, procs=None, chunk=64):
+    """map fn over items in forked worker processes (the library is pure Python and slow)."""
+    import multiprocessing as mp
+    items = list(items)
+    procs = procs or min(16, os.cpu_count() or 4)
+    if len(items) < 64 or procs <= 1:
+        return [fn(x) for x in items]
+    ctx = mp.get_context('fork')
+    with ctx.Pool(procs) as pool:
+        return pool.map(fn, items, chunksize=max(1, min(chunk, len(items) // (procs * 4) or 1)))
+
+
+def SP(seq):
+    from localcider.sequenceParameters import SequenceParameters
+    return SequenceParameters(seq)
+
+
+def fnum(x):
+    """canonicalise a numeric implementation output to a Python float/int (numpy scalars -> Python)."""
+    try:
+        return x.item()
+    except AttributeError:
+        return x
